@@ -927,3 +927,26 @@ def sweep_c07(tier, seed):
         first.setdefault(v["name"], v)
     return {"status": "violation" if viol else "ok", "cases": cases, "distinct": len(distinct), "violations": list(first.values()),
             "samples": [list(map(str, s)) for s in list(distinct)[:3]], "kind": "bounded-native"}
+
+
+def replay_to_history(case, model, rec):
+    import pint
+
+    osy = _os()
+    np = _np()
+    a = osy.Array(values=np.array([1.0, 2.0, 3.0]), unit="m")
+    a.to("cm")
+    a.unit = "km"
+    r = a.to("cm")
+    ok, detail = compare(r, phys(osy.Array(values=np.array([1.0, 2.0, 3.0]), unit="km")))
+    if not ok:
+        return {"reproduced": True, "input": "a.to('cm'); a.unit='km'; a.to('cm')", "observed": detail}
+    b = osy.Array(values=np.array([1.0, 2.0]), unit="m")
+    b.to("cm")
+    b *= b
+    try:
+        b.to("cm")
+        return {"reproduced": True, "input": "b.to('cm'); b *= b; b.to('cm')", "observed": "no DimensionalityError for m**2 -> cm"}
+    except pint.DimensionalityError:
+        pass
+    return {"reproduced": False}
